@@ -291,6 +291,7 @@ def run(prop, res, tier, seed):
     # 2b. a custom type may be called like a type of the prelude (legal Gleam: the module's own type wins); expected types by construction
     run_prelude_named(res, rng, tier)
     run_use_shadow(res, rng, tier)
+    run_same_named_across_modules(res, rng, tier)
     # 2. programs
     stats, vstats = run_programs(res, rng, 40 if tier == "quick" else 1200, tier)
     if vstats["expected_rejected"] > 0.5 * max(1, vstats["expected_ok"] + vstats["expected_rejected"]):
@@ -350,6 +351,48 @@ def run_prelude_named(res, rng, tier):
                     res.add_violation("C09/wrong-type/custom-type-named-like-prelude",
                                       f"a module's own type `{n}` ({how}): `{b}` is shown as `{shown}`, Gleam's type is `{want[b]}`",
                                       {"texts": {p: t for p, t in files}, "binder": b, "shown": shown, "expected": want[b]})
+                    break
+
+
+def run_same_named_across_modules(res, rng, tier):
+    """one function reaches TWO declarations of the same name from different modules - aliases (`geo.Id = Int`, `account.Id = String`),
+    custom types, and aliases behind constructor fields - through its annotations, constructors and patterns: each mention means its
+    own module's declaration.  Types fixed by the construction."""
+    pairs = [("Int", "String", "1", '"s"'), ("Float", "Bool", "1.5", "True"), ("String", "List(Int)", '"s"', "[1]"), ("#(Int, Int)", "Float", "#(1, 2)", "0.5")]
+    for nm in ("Id", "Key", "Unit"):
+        for (ta, tb, la, lb) in (pairs if tier != "quick" else rng.sample(pairs, 2)):
+            geo = f"pub type {nm} = {ta}\n\npub type Place {{\n  Place(id: {nm}, n: Int)\n}}\n\npub fn origin() -> {nm} {{\n  {la}\n}}\n"
+            acc = f"pub type {nm} = {tb}\n\npub type Owner {{\n  Owner(id: {nm})\n}}\n\npub fn nobody() -> {nm} {{\n  {lb}\n}}\n"
+            order = rng.random() < 0.5
+            main = ("import geo\nimport account\n\n"
+                    + (f"pub fn describe(place: geo.{nm}, owner: account.{nm}) {{\n  #(place, owner)\n}}\n\n" if order else
+                       f"pub fn describe(owner: account.{nm}, place: geo.{nm}) {{\n  #(owner, place)\n}}\n\n")
+                    + f"pub fn fields(p: geo.Place, o: account.Owner) {{\n  let pid = p.id\n  let oid = o.id\n  #(oid, pid)\n}}\n\n"
+                    + f"pub fn pats(p: geo.Place, o: account.Owner) {{\n  let geo.Place(gid, _) = p\n  let account.Owner(aid) = o\n  #(gid, aid)\n}}\n\n"
+                    + f"pub fn calls() {{\n  let a = account.nobody()\n  let g = geo.origin()\n  #(g, a)\n}}\n")
+            A, B = ta.replace(" ", ""), tb.replace(" ", "")
+            want = {"pub fn describe": (7, f"fn({A},{B})->#({A},{B})" if order else f"fn({B},{A})->#({B},{A})"),
+                    "let pid": (4, A), "let oid": (4, B), "Place(gid": (6, A), "Owner(aid": (6, B), "let a =": (4, B), "let g =": (4, A),
+                    "pub fn calls": (7, f"fn()->#({A},{B})"), "pub fn fields": (7, f"fn(Place,Owner)->#({B},{A})")}
+            files = [("/w/p/src/geo.gleam", geo), ("/w/p/src/account.gleam", acc), ("/w/p/src/main.gleam", main)]
+            lines = ["ws-begin"] + [f"file\t{p}\t{hexs(t)}" for p, t in files] + ["file\t/w/p/gleam.toml\t" + hexs('name = "p"\n'),
+                     "root\t/w/p\t0,1,2,3", "pkg\tp\t3\t1\t-", "ws-end"]
+            probes = []
+            for needle, (d, _) in want.items():
+                probes.append(needle)
+                lines.append(f"hover\t2\t{len(main[:main.index(needle) + d].encode())}")
+            out, rc = common.run_lines(common.HARNESS_BIN, lines)
+            res.cov["evaluations"] += len(probes)
+            if len(out) != len(lines):
+                continue
+            for b, a in zip(probes, out[-len(probes):]):
+                shown = strip_md(unhexs(a.split(" ", 1)[1])) if " " in a else None
+                if shown is None:
+                    continue
+                if re.sub(r"\s+", "", shown) != want[b][1]:
+                    res.add_violation("C09/wrong-type/same-name-in-two-modules",
+                                      f"`geo.{nm} = {ta}` and `account.{nm} = {tb}` in one function: at `{b}` the type is shown as `{shown}`, Gleam's type is `{want[b][1]}`",
+                                      {"texts": {p: t for p, t in files}, "binder": b, "shown": shown, "expected": want[b][1]})
                     break
 
 
